@@ -898,7 +898,10 @@ pub fn miri_main(args: &[String]) -> ! {
                 let op = light[((from + k) % light.len() as u64) as usize];
                 let shapes: Vec<crate::c12::ops::Shape> = (0..2u64)
                     .map(|t| {
-                        let mut r = Rng::new(mix(mix(shape_seed, 0x9A1, from + k), 0x9A2, t));
+                        // the same shape on both threads: under Miri's fine-grained preemption they then move through
+                        // the same kernels at nearly the same time
+                        let _ = t;
+                        let mut r = Rng::new(mix(mix(shape_seed, 0x9A1, from + k), 0x9A2, 0));
                         let mut sh = crate::c12::random_shape(&mut r, false);
                         sh.n = n;
                         sh
